@@ -22,6 +22,23 @@ from mc.ref import cs_model as M
 from mc.ref.cs_model import A, F, T, V
 
 BAD_NAMES = {"dunder": "__x", "digit": "1x", "dash": "a-b", "empty": ""}
+# names outside the ASCII name alphabet /[_A-Za-z][_0-9A-Za-z]*/ that Python's str / re predicates
+# (\w, isalnum, isidentifier) take for word characters, in first and in later position; and a name
+# followed by a line terminator ("$" matches before a trailing newline)
+BAD_NAMES_UNICODE = {
+    "latin1-later": "caf\u00e9",
+    "latin1-first": "\u00e9cole",
+    "fullwidth-digit-later": "x\uff11",
+    "superscript-later": "total\u00b2",
+    "diaeresis-inside": "na\u00efve_id",
+    "greek-first": "\u03b1b",
+    "greek-later": "b\u03b1",
+    "astral-letter-later": "a\U0001d4b3",
+    "astral-letter-first": "\U0001d4b3a",
+    "trailing-newline": "ab\n",
+}
+BAD_NAMES.update(BAD_NAMES_UNICODE)
+PAIRABLE_BAD = ("dunder", "digit", "dash", "empty", "latin1-later")
 
 
 def _rel():
@@ -144,8 +161,10 @@ def violations(sm):
     output_reps = list(pick.values())  # one object, one interface, one union
     input_rep = inputs_only[:1]
 
-    # A. names
+    # A. names (the non-ASCII alphabet is appended at the end of the list, see H)
     for bk in BAD_NAMES:
+        if bk in BAD_NAMES_UNICODE:
+            continue
         for t in sm["types"]:
             out.append({"op": "bad-name", "target": "type", "kind": t["kind"], "at": ["type", t["name"]], "bad": bk})
         for pos in positions(sm, ("field", "arg", "input-field", "directive-arg", "enum-value")):
@@ -209,7 +228,20 @@ def violations(sm):
         for n in non_objects:
             out.append({"op": "root-non-object", "at": ["root", op], "to": n, "of": kinds[n]})
     out.append({"op": "root-missing-query", "at": ["root", "query"]})
+    # H. names outside the ASCII alphabet, every element kind, every position
+    for bk in BAD_NAMES_UNICODE:
+        for t in sm["types"]:
+            out.append({"op": "bad-name", "target": "type", "kind": t["kind"], "at": ["type", t["name"]], "bad": bk})
+        for pos in positions(sm, ("field", "arg", "input-field", "directive-arg", "enum-value")):
+            out.append({"op": "bad-name", "target": pos[0], "at": pos, "bad": bk})
+        for d in sm.get("directives") or ():
+            out.append({"op": "bad-name", "target": "directive", "at": ["directive", d["name"]], "bad": bk})
     return out
+
+
+def pairable(v):
+    """violations used in the pair enumeration (thorough): everything but the wider name alphabet."""
+    return not (v["op"] == "bad-name" and v["bad"] not in PAIRABLE_BAD)
 
 
 def _is_sub(sm, name, sup):
@@ -227,6 +259,8 @@ def _is_sub(sm, name, sup):
 def label(v):
     op = v["op"]
     if op == "bad-name":
+        if v["bad"] == "trailing-newline":
+            return "bad-name:trailing-newline"  # its own root cause ("$" in the name pattern), whatever the element kind
         return "bad-name:%s" % v["target"]
     if op in ("empty", "duplicate"):
         return "%s:%s" % (op, v["target"])
@@ -659,3 +693,61 @@ def resolver_cases():
         out.append(("type-default", "Query", None, params))
         out.append(("global-default", None, None, params))
     return out
+
+
+# ------------------------------------------------------------------------------------------
+# one resolver object serving several fields
+
+SHARED_SITES = [
+    ("Query", "plain"),
+    ("Query", "req"),
+    ("Query", "opt"),
+    ("Query", "dft"),
+    ("Query", "two"),
+    ("Query", "py"),
+    ("Iface", "iv"),
+    ("Impl", "iv"),
+]
+SHARED_SIGNATURES = [
+    "root, ctx, info",
+    "root, ctx, info, a",
+    "root, ctx, info, b=None",
+    "root, ctx, info, b",
+    "root, ctx, info, a, b=None",
+    "root, ctx, info, c",
+    "root, ctx, info, some_arg=None",
+    "root, ctx, info, a=None, b=None, c=None",
+    "root, ctx, info, **kw",
+    "root, ctx",
+]
+
+
+def shared_resolver_cases():
+    """[(sites, params)]: ONE function object assigned to 2 or 3 fields whose argument sets differ."""
+    out = []
+    for r in (2, 3):
+        for sites in itertools.combinations(SHARED_SITES, r):
+            for params in SHARED_SIGNATURES:
+                out.append(([list(x) for x in sites], params))
+    return out
+
+
+def shared_orders(sm, sites):
+    """models with the chosen fields of each type in every relative order (moved to the front)."""
+    by_type = {}
+    for tn, fn in sites:
+        by_type.setdefault(tn, []).append(fn)
+    variants = [copy.deepcopy(sm)]
+    for tn, fns in by_type.items():
+        if len(fns) < 2:
+            continue
+        nxt = []
+        for m in variants:
+            for perm in itertools.permutations(fns):
+                m2 = copy.deepcopy(m)
+                t = M.get_type(m2, tn)
+                chosen = {f["name"]: f for f in t["fields"] if f["name"] in fns}
+                t["fields"] = [chosen[n] for n in perm] + [f for f in t["fields"] if f["name"] not in fns]
+                nxt.append(m2)
+        variants = nxt
+    return variants
